@@ -277,7 +277,7 @@ fn gen_cases(seed: u64, thorough: bool, bases: &[Base]) -> Vec<Case> {
             k += stride;
         }
         // bit flips
-        let nflip = if thorough { len * 8 } else { 400.min(len * 8) };
+        let nflip = if thorough { len * 8 } else { 250.min(len * 8) };
         for j in 0..nflip {
             let (o, bit) = if thorough { (j / 8, j % 8) } else { (r.below(len as u64) as usize, r.below(8) as usize) };
             if protect(o, 1) && !(o == 50 && bit < 4) {
@@ -287,13 +287,13 @@ fn gen_cases(seed: u64, thorough: bool, bases: &[Base]) -> Vec<Case> {
         }
         if b.fm == Fm::Bin {
             // all 8 bits of every header/catalog-count byte region start
-            for o in 0..len.min(40) {
+            for o in 0..len.min(if thorough { 40 } else { 24 }) {
                 for bit in 0..8 {
                     cases.push(Case { base: bi, off: o, del: 1, ins: vec![b.bytes[o] ^ (1 << bit)], kind: "bitflip" });
                 }
             }
             // length-field splices at every offset
-            let sstride = if small || thorough { 1 } else { 3 };
+            let sstride = if thorough { 1 } else if len <= 200 { 1 } else { 2 };
             let mut o = 16;
             while o + 4 <= len {
                 for v in [0u32, 1, 0x8000_0000, 0xFFFF_FFFF] {
@@ -322,7 +322,7 @@ fn gen_cases(seed: u64, thorough: bool, bases: &[Base]) -> Vec<Case> {
             }
         }
         // random blocks: overwrite / insert / delete
-        for _ in 0..(if thorough { 1500 } else { 250 }) {
+        for _ in 0..(if thorough { 1500 } else { 150 }) {
             let o = r.below(len as u64 + 1) as usize;
             let n = 1 + r.below(8) as usize;
             let ins: Vec<u8> = (0..n).map(|_| r.next() as u8).collect();
@@ -440,7 +440,10 @@ fn worker(args: &Args) {
         }
         let c = &cases[i];
         let b = &bases[c.base];
-        let path = tmp.join(format!("w{}{}.{}", w, if single.is_some() { "s" } else { "" }, b.fm.ext()));
+        let path = match single {
+            Some(k) => tmp.join(format!("single{}.{}", k, b.fm.ext())),
+            None => tmp.join(format!("w{}.{}", w, b.fm.ext())),
+        };
         std::fs::write(&path, patched(&b.bytes, c)).expect("write case file");
         {
             let mut o = out.lock();
@@ -734,6 +737,30 @@ fn main() {
         });
     }
     let mut results = results.into_inner().unwrap();
+
+    // ---- an abort / time-out / allocation failure must reproduce when the case is run alone (a loaded
+    //      machine can starve a worker for seconds); otherwise the second observation is taken ----
+    if wanted.is_none() {
+        let suspects: Vec<usize> = results.iter().filter(|(_, o)| o.code >= 3).map(|(i, _)| *i).collect();
+        let again: Mutex<BTreeMap<usize, Obs>> = Mutex::new(BTreeMap::new());
+        std::thread::scope(|s| {
+            for chunk in suspects.chunks(suspects.len().max(1).div_ceil(8)) {
+                let (exe, args, again) = (&exe, &args, &again);
+                s.spawn(move || {
+                    for &i in chunk {
+                        let ch = spawn_worker(exe, args, &[("worker", "0".into()), ("nworkers", "1".into()), ("single", i.to_string())]);
+                        drive(ch, again);
+                    }
+                });
+            }
+        });
+        for (i, o2) in again.into_inner().unwrap() {
+            if o2.code < 3 {
+                sum.count("abnormal_outcome_not_reproduced");
+                results.insert(i, o2);
+            }
+        }
+    }
 
     // ---- isolated re-runs under RLIMIT_AS = 1 GiB for a sample of the resource findings ----
     let mut isolated: BTreeMap<usize, Obs> = BTreeMap::new();
